@@ -957,3 +957,9 @@ package transport
 //@ func (s *Server) Serve$1()
 //@   property C10 C03
 //@   ensures called(atomic.Uint32.Load) && resultof(atomic.Uint32.Load, result) != 1
+
+// ... and the client's receive loop likewise: it ends only after loading a state other than clientStateOpen; a
+// datagram that handleSessionMessage rejects, or a read error while still open, only moves on to the next datagram.
+//@ func (c *Client) listen()
+//@   property C10
+//@   ensures called(atomic.Uint32.Load) && resultof(atomic.Uint32.Load, result) != transport.clientStateOpen
